@@ -28,10 +28,46 @@ THEOREMS = [
     "Verif.C12.odijk_force_of_distance",
     "Verif.C12.trig_root_order",
     "Verif.C12.ms_selected_root_partial",
+    "Verif.C12.cubic_vec_pointwise",
+    "Verif.C12.cubic_vec_pointwise_float",
+    "Verif.C12.cubic_vec_roots",
+    "Verif.C12.cubic_cardano_unique",
+    "Verif.C12.cubic_cardano_boundary",
+    "Verif.C12.ms_selected_root",
+    "Verif.C12.ms_force_of_distance",
+    "Verif.C12.ms_distance_of_force",
+    "Verif.C12.ems_distance_is_shifted_ms",
+    "Verif.C12.ems_distance_selected_root",
+    "Verif.C12.ems_force_selected_root",
+    "Verif.C12.ems_force_solves_all",
+    "Verif.C12.ems_distance_solves_all",
+    "Verif.C12.ems_force_of_distance",
+    "Verif.C12.ems_distance_of_force",
+    "Verif.C12.odijk_distance_strictMono",
+    "Verif.C12.odijk_pair_characterised",
+    "Verif.C12.ms_pair_characterised",
+    "Verif.C12.ems_distance_characterised",
+    "Verif.C12.ems_force_characterised",
+    "Verif.C12.ms_force_strictMono",
+    "Verif.C12.ms_distance_strictMono",
+    "Verif.C12.odijk_force_strictMono",
+    "Verif.C12.ems_distance_strictMono",
+    "Verif.C12.ems_force_strictMono",
+    "Verif.C12.twlc_g_published",
+    "Verif.C12.twlc_distance_published",
+    "Verif.C12.coth_guard_error",
+    "Verif.C12.efjc_distance_published",
+    "Verif.C12.efjc_distance_strictMono_below_guard",
+    "Verif.C12.twlc_distance_strictMono_below_Fc",
+    "Verif.C12.coth_negative_guard_dead",
+    "Verif.C12.twlc_force_round_trip",
     "Verif.C12.composite_is_sum",
     "Verif.C12.offset_shifts_independent",
     "Verif.C12.routing_by_name",
+    "Verif.C12.validation_by_name",
     "Verif.C12.inverse_round_trip",
+    "Verif.C12.inverse_of_model",
+    "Verif.C12.odijk_distance_slope",
     "Verif.C12.dna_parametrisation",
     "Verif.C12.F9_witness",
 ]
@@ -48,7 +84,16 @@ RULE = (
     "again, asked for in consecutive slices, a new array / a Python list of values, a second parameter set (one "
     "parameter moved by 1-5%) and back, a second model object of the same constructor; a shorter session for the offset "
     "model of every constructor and for Model.invert() with and without interpolation of every solver-free one) "
-    "+ seeded random cases: (s) sessions as above with 3-8 queries of random kind and order on vectors of 4-24 "
+    "; calc_cubic_root on every monic cubic with roots in {-3..3} (distinct, double and triple roots) and every "
+    "(y - r)(y^2 - 2 re y + re^2 + im^2), r, re in -2..2, im in {1, 2}, at scale 1 and 1/4, all selected roots, judged "
+    "against the exact roots; calc_cubic_root on every array of length 0..3 over two Cardano and two trigonometric "
+    "rows (all 15 mask patterns), every selected root; the extensible and the inextensible Marko-Siggia distance at the "
+    "same 18 forces for 4 parameter sets (elastic shift Lc F/St); efjc_distance / twlc_distance with the force exactly "
+    "on, one ulp from, 1e-9 around and well inside either side of the coth guard 2 F Lp/kT = 500 and of the critical "
+    "force Fc) "
+    "+ seeded random cases: (v) arrays of 1-12 cubics of stream (a) put to calc_cubic_root in ONE call (rows of both "
+    "branches; compared with the masked-array model and with the same rows asked for alone), (e) the elastic shift at "
+    "1-8 forces for parameters from the box, (s) sessions as above with 3-8 queries of random kind and order on vectors of 4-24 "
     "valid inputs (4-10 through SciPy), parameters from the property's box, for a constructor, its offset model, the "
     "constructor plus an offset model, or its generic inverse; EVERY answer of a session is compared with the model "
     "and judged by the oracle at the content the buffer had for that query; (a) calc_cubic_root on coefficient triples built from "
@@ -75,7 +120,7 @@ RULE = (
     "generic constructors, equal or different names) that are ALL built before each DNA model is asked for its "
     "defaults and evaluated at them; (d) a malformed stream: non-positive or missing parameters, 2-D "
     "independent, incompatible composites, interpolation with infinite limits, selected_root=3, forces <= 0, "
-    "distances >= Lc, NaN, empty input. Non-trivial: the implementation returned at least one finite number "
+    "distances >= Lc, NaN, empty input, a non-positive parameter in ONE part of a composite / offset / inverted model. Non-trivial: the implementation returned at least one finite number "
     "(chain / cubic / dna cases) or a parameter list (names cases); every case of the malformed stream counts "
     "(error, nan/inf or number). How many compared values were inside / outside the model's error bound is "
     "reported separately (values_compared_within_model_error_bound / values_dropped_bound_undetermined)."
@@ -169,6 +214,7 @@ PARTNER = {
 }
 SOLVER_KINDS = {"efjc_force", "twlc_force"}
 CUBIC_KINDS = {"ewlc_odijk_force", "wlc_marko_siggia_distance", "ewlc_marko_siggia_force", "ewlc_marko_siggia_distance"}
+MONO_PROVED = CUBIC_KINDS | {"ewlc_odijk_distance", "wlc_marko_siggia_force"}
 INF = "inf"
 
 
@@ -646,6 +692,43 @@ def run_case(case):
                 ans.append(r)
                 ops.append(eval_op(e, params, [via["x"]]))
             return ans, ops
+        if op == "cubicvec":
+            # calc_cubic_root on whole arrays (rows of both branches in one call: the masked reads and writes), and
+            # then row by row through the same function: `alone`
+            solve, how = cubic_solver()
+            rows, k = case["rows"], case["k"]
+            cols = [np.array([r[j] for r in rows], dtype=float) for j in range(3)]
+            line = f"c12.cubicvec {enc_list(cols[0], enc_float)} {enc_list(cols[1], enc_float)} {enc_list(cols[2], enc_float)} {k}"
+            if solve is None or (k > 2 and how == "watched"):
+                return ["?", "?"], [line, "c12.skip"]
+            with np.errstate(all="ignore"):
+                try:
+                    whole = enc_vals(solve(cols[0], cols[1], cols[2], k)) if rows else enc_list(
+                        np.asarray(solve(cols[0], cols[1], cols[2], k), dtype=float).ravel(), enc_float)
+                except Exception as ex:  # noqa: BLE001
+                    whole = errname(ex)
+                alone = []
+                for r in rows:
+                    try:
+                        alone.append(enc_float(np.atleast_1d(solve(np.array([r[0]]), np.array([r[1]]), np.array([r[2]]), k))[0]))
+                    except Exception as ex:  # noqa: BLE001
+                        alone.append(errname(ex))
+            return [whole, "|".join(alone)], [line, "c12.skip"]
+        if op == "shift":
+            # theorem ems_distance_is_shifted_ms on the implementation: the extensible and the inextensible
+            # Marko-Siggia distance at the same forces and parameters (two public constructors, two cubics)
+            Lp, Lc, St, kT = case["args"]
+            ans, ops = [], []
+            for kind, a in (("ewlc_marko_siggia_distance", [Lp, Lc, St, kT]), ("wlc_marko_siggia_distance", [Lp, Lc, kT])):
+                e = ["b", kind, "m"]
+                params = dict(zip(p_names(e), a))
+                try:
+                    r = show(call(build(e), np.array(case["xs"], dtype=float), params))
+                except Exception as ex:  # noqa: BLE001
+                    r = errname(ex)
+                ans.append(r)
+                ops.append(eval_op(e, params, case["xs"]))
+            return ans, ops
         if op == "names":
             e = case["expr"]
             try:
@@ -790,6 +873,8 @@ def agree(case, i, ia, ma):
         return True  # an observation of private code that could not be made (see cubic_solver): nothing to compare
     if ma == "bad-op" and ia == "skipped-nonfinite":
         return True
+    if case["op"] == "cubicvec" and i == 1:
+        return True  # the row-by-row answers of the implementation: for the oracle only
     if case["op"] == "names":
         return ia == ma
     if not ma.startswith("[") and not ma.startswith("b") and ma != "nan":
@@ -866,7 +951,10 @@ def oracle(case, ia):
             vals.append((k, y))
             scale = abs(y) ** 3 + abs(a) * y * y + abs(b) * abs(y) + abs(c)
             res = y**3 + a * y * y + b * y + c
-            if math.isfinite(scale) and abs(res) > 1e-3 * scale + 1e-300:
+            # a root at (or next to) zero: the returned value carries an ABSOLUTE error of a few ulp of the roots' scale
+            # (y = t - a/3), which the terms at y do not show; rs = Cauchy-type scale of the roots
+            rs = max(abs(a), math.sqrt(abs(b)), abs(c) ** (1.0 / 3.0))
+            if math.isfinite(scale) and abs(res) > 1e-3 * scale + 1e-9 * rs**3 + 1e-300:
                 return f"cubic-root: calc_cubic_root({a},{b},{c},{k}) = {y} is not a root: residual {res:.3e} vs term scale {scale:.3e}"
         p = b - a * a / 3.0
         q = 2 * a**3 / 27.0 - a * b / 3.0 + c
@@ -882,6 +970,33 @@ def oracle(case, ia):
                 return f"cubic-vieta: three real roots {y0},{y1},{y2} do not sum to -a={-a}"
             if not (y1 <= y0 + 1e-9 * sc and y0 <= y2 + 1e-9 * sc):
                 return f"cubic-order: roots not ordered root1 <= root0 <= root2: {y1},{y0},{y2}"
+        exact = case.get("roots")
+        if exact is not None:
+            # small scope: the cubic was built from these exact roots (real ones listed, ascending)
+            sc = max([abs(t) for t in exact] + [1.0])
+            for k, y in vals:
+                if len(exact) == 3 and exact[0] < exact[1] < exact[2]:
+                    want = {0: exact[1], 1: exact[0], 2: exact[2]}[k]
+                    if abs(y - want) > 1e-6 * sc:
+                        return (f"cubic-selection: calc_cubic_root({a},{b},{c},{k}) = {y}: with three distinct real roots "
+                                f"{exact} root 1 is the smallest, root 0 the middle, root 2 the largest one")
+                elif len(exact) == 1:
+                    if abs(y - exact[0]) > 1e-6 * sc:
+                        return f"cubic-unique: calc_cubic_root({a},{b},{c},{k}) = {y} but the only real root is {exact[0]}"
+                elif min(abs(y - t) for t in exact) > 1e-4 * sc:
+                    # repeated roots (det = 0 up to rounding): a root, to the sqrt(eps) sensitivity of a double root
+                    return f"cubic-root: calc_cubic_root({a},{b},{c},{k}) = {y} is none of the roots {exact}"
+        if len(vals) == 3 and det > 1e3 * det_err and det > 1e-6 * (q * q / 4 + abs(p) ** 3 / 27):
+            # Cardano regime, discriminant clearly positive: ONE real root, whatever root was asked for
+            ys = [v for _, v in vals]
+            sc = max(abs(ys[0]), abs(a), 1e-300)
+            if max(ys) - min(ys) > 1e-9 * sc:
+                return f"cubic-unique: det > 0 (one real root) but the selected roots differ: {ys}"
+            y = ys[0]
+            # the other two roots solve x^2 + (a + y) x + (b + (a + y) y): they must not be real
+            d2 = (a + y) ** 2 - 4.0 * (b + (a + y) * y)
+            if d2 > 1e-3 * ((a + y) ** 2 + 4.0 * abs(b + (a + y) * y)):
+                return f"cubic-unique: det > 0 but after dividing out the returned root {y} the quadratic factor has real roots"
         via = case.get("via")
         if via and len(ia) > len(case["ks"]):
             # the public constructor that has to solve this cubic, judged by its published equation
@@ -889,6 +1004,42 @@ def oracle(case, ia):
             if got is None or len(got) != 1:
                 return f"evaluation: {via['kind']}({via['x']}) on valid input gave {ia[len(case['ks'])][:60]}"
             return published_clause(via["kind"], via["args"], [via["x"]], got)
+        return None
+    if op == "cubicvec":
+        if ia[0] == "?":
+            return None
+        rows, k = case["rows"], case["k"]
+        if k > 2:
+            return None if ia[0] == "RuntimeError" else f"selected_root={k}: expected RuntimeError, got {ia[0]}"
+        got = dec_vals(ia[0])
+        if got is None or len(got) != len(rows):
+            return f"cubic-vector: calc_cubic_root on {len(rows)} rows gave {ia[0][:60]}"
+        alone = ia[1].split("|") if ia[1] else []
+        for i, (row, y) in enumerate(zip(rows, got)):
+            # every entry is judged as the answer to ITS row (root of that row's cubic) ...
+            r = oracle({"op": "cubic", "abc": row, "ks": [k]}, [enc_float(y)])
+            if r:
+                return f"cubic-vector: entry {i} of {len(rows)}: {r}"
+            # ... and is what the row gets when it is asked for alone (no value may depend on, or land in, another row)
+            if alone[i].startswith("b"):
+                ya = dec_float(alone[i])
+                if not (ya == y or (math.isnan(ya) and math.isnan(y)) or abs(ya - y) <= 1e-12 * max(abs(y), abs(row[0]))):
+                    return (f"cubic-vector: entry {i} of calc_cubic_root on {len(rows)} rows is {y}, the same row alone gives {ya} "
+                            f"(row {row}, selected_root={k})")
+        return None
+    if op == "shift":
+        Lp, Lc, St, kT = case["args"]
+        ems, ms = dec_vals(ia[0]), dec_vals(ia[1])
+        if ems is None or ms is None or len(ems) != len(case["xs"]) or len(ms) != len(case["xs"]):
+            return f"evaluation: Marko-Siggia distance models on valid input gave {ia[0][:40]} / {ia[1][:40]}"
+        for F, de, dm in zip(case["xs"], ems, ms):
+            # published relations: F Lp/kT = h(d/Lc) and F Lp/kT = h(d/Lc - F/St), h(x) = 1/4 (1-x)^-2 - 1/4 + x, so the
+            # extensible extension is the inextensible one plus the elastic stretch Lc F / St
+            if not abs(de - dm - Lc * F / St) <= TOL_CLOSED * Lc:
+                return (f"elastic-shift: ewlc_marko_siggia_distance({F}) = {de}, wlc_marko_siggia_distance({F}) = {dm}: "
+                        f"the difference {de - dm} is not the elastic stretch Lc F/St = {Lc * F / St}")
+            if not (0.0 < dm < Lc):
+                return f"selected-root: wlc_marko_siggia_distance({F}) = {dm} is not strictly between 0 and Lc = {Lc}"
         return None
     if op == "names":
         e = case["expr"]
@@ -1167,6 +1318,14 @@ def oracle_chain(case, ia):
     r = published_clause(kind, a, xs, got)
     if r:
         return r
+    # (1') order: the six closed-form / explicit members of the Odijk and Marko-Siggia families are strictly increasing on
+    # their domain (theorems *_strictMono), so larger inputs must not give smaller outputs (beyond the closed forms' noise)
+    if kind in MONO_PROVED:
+        pts = sorted(zip(xs, got))
+        for (x1, g1), (x2, g2) in zip(pts, pts[1:]):
+            sc = a[1] if KINDS[kind][2] == "f" else max(abs(g1), abs(g2))
+            if x2 > x1 and g2 < g1 - TOL_CLOSED * sc:
+                return f"monotone: {kind}({x1}) = {g1} > {kind}({x2}) = {g2} although the model is increasing"
     # (2) the round trip through the partner model, on the implementation's answers
     back = dec_vals(ia[1]) if len(ia) > 1 else None
     if back is None:
@@ -1273,6 +1432,13 @@ def shrink(case):
             c = dict(case)
             c["xs"] = case["xs"][:1]
             yield c
+    if case["op"] == "cubicvec" and len(case["rows"]) > 1:
+        rows = case["rows"]
+        for i in range(len(rows)):
+            yield dict(case, rows=rows[:i] + rows[i + 1:])
+    if case["op"] == "shift" and len(case["xs"]) > 1:
+        for x in case["xs"]:
+            yield dict(case, xs=[x])
     if case["op"] == "cubic" and len(case["ks"]) > 1:
         for k in case["ks"]:
             c = dict(case)
@@ -1571,6 +1737,51 @@ def small_scope(rng, quick):
                                n=3, include_low=True)
             if c is not None:
                 yield c
+    # calc_cubic_root, exhaustive: every monic cubic with roots in {-3..3} (three real roots incl. every double and
+    # triple root: det = 0 exactly or up to rounding) and every (y - r)(y^2 - 2 re y + re^2 + im^2), r, re in -2..2,
+    # im in {1, 2} (one real root), at unit scale and at scale 1/4; all three selected roots
+    for sc in (1.0, 0.25):
+        vals = [sc * t for t in range(-3, 4)]
+        for i1, r1 in enumerate(vals):
+            for i2 in range(i1, len(vals)):
+                for i3 in range(i2, len(vals)):
+                    yield {"stream": "small-scope", "op": "cubic", "ks": [0, 1, 2],
+                           "abc": [float(t) for t in cubic_from_roots(r1, vals[i2], vals[i3])],
+                           "roots": [float(r1), float(vals[i2]), float(vals[i3])]}
+        for r1 in range(-2, 3):
+            for re in range(-2, 3):
+                for im in (1, 2):
+                    yield {"stream": "small-scope", "op": "cubic", "ks": [0, 1, 2],
+                           "abc": [float(t) for t in cubic_one_real(sc * r1, sc * re, sc * im)], "roots": [float(sc * r1)]}
+    yield {"stream": "small-scope", "op": "cubic", "ks": [3], "abc": [0.0, -1.0, 0.0], "roots": [-1.0, 0.0, 1.0]}
+    # the guard of coth (|2 F Lp / kT| < 500) and the mask of the tWLC coupling (f < Fc, f >= Fc): the force exactly on the
+    # boundary, one ulp and 1e-9 relative to either side, and well inside either branch (parameters inside the box)
+    for kind, args, Fb in (("efjc_distance", [1.05, 16.0, 1125.0, 2.055], 500.0 * 2.055 / (2.0 * 1.05)),
+                           ("efjc_distance", [0.7, 16.0, 750.0, 4.11], None),
+                           ("twlc_distance", [DEFAULTS[x] for x in A8], DEFAULTS["Fc"]),
+                           ("twlc_distance", [40.0, 3.0, 1500.0, 440.0, -637.0, 17.0, 33.0, 4.11], 33.0)):
+        e = ["b", kind, "m"]
+        if Fb is None:
+            xs = [0.05, 1.0, 10.0, 100.0, 400.0, 600.0]
+        else:
+            xs = [0.5 * Fb, Fb * (1 - 1e-9), float(np.nextafter(Fb, 0.0)), Fb, float(np.nextafter(Fb, 1e9)), Fb * (1 + 1e-9),
+                  min(1.5 * Fb, 0.8 * validity_limit(kind, args))]
+        yield chain_case(e, dict(zip(p_names(e), args)), xs, "small-scope", True, boundary=kind)
+    # calc_cubic_root on arrays, exhaustive: every vector of length 0..3 over a pool of two Cardano rows and two
+    # trigonometric rows (every mask pattern of these lengths), all three selected roots
+    pool = [[0.0, 1.0, 1.0], [-1.0, 1.0, -1.0], [0.0, -1.0, 0.0], [-7.0, 14.0, -8.0]]
+    vecs = [[]]
+    for _ in range(3):
+        vecs = vecs + [v + [row] for v in vecs if len(v) == max(len(w) for w in vecs) for row in pool]
+    for v in vecs:
+        for k in (0, 1, 2):
+            yield {"stream": "small-scope", "op": "cubicvec", "rows": v, "k": k}
+    yield {"stream": "small-scope", "op": "cubicvec", "rows": [pool[0], pool[2]], "k": 3}
+    # the extensible and the inextensible Marko-Siggia distance at the same forces (elastic shift Lc F/St), default
+    # parameters and a short / soft tether, forces over the whole common validity range on both sides of det = 0
+    for args in ([40.0, 16.0, 1500.0, 4.11], [40.0, 0.3, 750.0, 4.11], [60.0, 30.0, 2250.0, 2.055], [20.0, 2.0, 750.0, 6.165]):
+        yield {"stream": "small-scope", "op": "shift", "args": args,
+               "xs": [0.05, 0.06, 0.07, 0.08, 0.09, 0.1, 0.15, 0.2, 0.3, 0.5, 1.0, 2.0, 5.0, 10.0, 20.0, 40.0, 60.0, 80.0]}
     # sessions of two DNA convenience models (every ordered pair of the four public names), built for different and
     # for equal temperatures, both observed after the second one exists
     for c1 in sorted(DNA_CTORS):
@@ -1953,6 +2164,22 @@ def cases(tier, rng):
         if c is not None:
             yield c
 
+    # ---- (a'') calc_cubic_root on arrays whose rows take different branches
+    r = rng.fork("c12-cubicvec")
+    for i in range(300 if quick else 6000):
+        sub = r.fork(i)
+        rows = [gen_cubic(sub.fork(j), j)["abc"] for j in range(sub.randint(1, 12))]
+        yield {"stream": "random", "op": "cubicvec", "rows": rows, "k": sub.choice([0, 1, 1, 2, 2]) if not sub.chance(0.02) else 3,
+               "subseed": i}
+
+    # ---- (a') elastic shift between the two Marko-Siggia distance models (theorem ems_distance_is_shifted_ms)
+    r = rng.fork("c12-shift")
+    for i in range(300 if quick else 6000):
+        sub = r.fork(i)
+        args = [draw_param(sub, "ewlc_marko_siggia_distance", x) for x in A4]
+        xs = forces_for(sub, "wlc_marko_siggia_distance", [args[0], args[1], args[3]], sub.randint(1, 8))
+        yield {"stream": "random", "op": "shift", "args": [float(t) for t in args], "xs": [float(x) for x in xs], "subseed": i}
+
     # ---- (c) DNA parametrisations
     r = rng.fork("c12-dna")
     lk_names = [("dsdna_ewlc_odijk_distance", 0.34), ("ssdna_efjc_distance", 0.56), ("dsdna_odijk", 0.34), ("ssdna_fjc", 0.56)]
@@ -1994,8 +2221,26 @@ def cases(tier, rng):
         e = ["b", k, "m"]
         p = draw_params(sub, e)
         xs = base_inputs(sub, e, p, sub.randint(1, 3))
-        m = sub.randint(0, 8)
+        m = sub.randint(0, 9)
         kw = {}
+        if m == 9:
+            # a non-positive parameter in ONE part of a composite / offset / inverted model (theorem validation_by_name):
+            # the model must raise ValueError whichever part owns the parameter
+            if k in SOLVER_KINDS:
+                k = sub.choice([x for x in kinds if x not in SOLVER_KINDS])
+                e = ["b", k, "m"]
+            mates = [x for x in sorted(KINDS) if KINDS[x][2] == KINDS[k][2] and x not in SOLVER_KINDS]
+            e2 = ["b", sub.choice(mates), sub.choice(["m", "n"])]
+            shape = sub.choice(["add-l", "add-r", "off", "off-add", "inv"])
+            full = {"add-l": ["add", e, e2], "add-r": ["add", e2, e], "off": ["off", e], "off-add": ["off", ["add", e2, e]],
+                    "inv": ["inv", e, 0.0, 1.0e3, False]}[shape]
+            p = draw_params(sub, full)
+            xs = base_inputs(sub, e, {n: v for n, v in p.items()}, sub.randint(1, 3))
+            own = [n for n in p_names(e) if n.split("/")[-1] in ("Lp", "Lc", "St", "kT")]
+            bad = sub.choice(own)
+            p[bad] = sub.choice([0.0, -1.0, -p[bad]])
+            yield chain_case(full, p, xs, "malformed", False, subseed=i, bad_part=shape)
+            continue
         if k in SOLVER_KINDS and m in (4, 5, 6, 8):
             m = 0  # SciPy's reaction to NaN / out-of-range targets is not part of the property
         if m == 0:
@@ -2040,9 +2285,62 @@ def extra_coverage(results):
               "cases_also_through_the_public_constructor": 0}
     msess = {"sessions": 0, "queries": 0, "with_two_parameter_sets": 0, "by_query_kind": {}, "by_expression": {},
              "through_scipy_solver": 0, "queries_after_in_place_overwrite_of_the_same_buffer": 0}
+    by_ctor = {}   # closed-form constructor -> branch of calc_cubic_root -> [values, of which inside the relation's domain]
+    small_cubic = {"three distinct real roots": 0, "repeated root (det = 0 up to rounding)": 0, "one real root": 0}
+    shift = {"cases": 0, "forces": 0, "det>=0 (Cardano)": 0, "det<0 (trigonometric)": 0}
+    guards = {"efjc_distance: cosh/sinh": 0, "efjc_distance: coth guard |x| >= 500 (value 1.0)": 0,
+              "efjc_distance: argument exactly 500 or one ulp from it": 0,
+              "twlc_distance: f < Fc": 0, "twlc_distance: f == Fc": 0, "twlc_distance: f > Fc": 0}
+    vec = {"arrays": 0, "rows": 0, "arrays_with_both_branches": 0, "by_length": {}, "small_scope_mask_patterns": set()}
     for r in results:
         c = r["case"]
         kinds[c["op"]] = kinds.get(c["op"], 0) + 1
+        if c["op"] == "cubic" and "roots" in c and c["ks"] != [3]:
+            ex = c["roots"]
+            small_cubic["one real root" if len(ex) == 1 else "three distinct real roots" if len(set(ex)) == 3
+                        else "repeated root (det = 0 up to rounding)"] += 1
+        if c["op"] == "cubicvec" and r["model"] and r["model"][0].startswith("[") and r["impl"][0] != "?":
+            brs = "".join(br for _, _, br in parse_model_list(r["model"][0]))
+            vec["arrays"] += 1
+            vec["rows"] += len(brs)
+            vec["arrays_with_both_branches"] += ("C" in brs and "T" in brs)
+            vec["by_length"][str(len(brs))] = vec["by_length"].get(str(len(brs)), 0) + 1
+            if c["stream"] == "small-scope":
+                vec["small_scope_mask_patterns"].add(brs)
+        if c["op"] == "chain" and c["expr"][0] == "b" and c.get("valid") and base_kind(c["expr"]) in ("efjc_distance", "twlc_distance"):
+            a_ = args_of(c["expr"], c["params"])
+            for x in c["xs"]:
+                if base_kind(c["expr"]) == "efjc_distance":
+                    t = 2.0 * x * a_[0] / a_[3]
+                    guards["efjc_distance: " + ("coth guard |x| >= 500 (value 1.0)" if not abs(t) < 500 else "cosh/sinh")] += 1
+                    guards["efjc_distance: argument exactly 500 or one ulp from it"] += abs(t - 500.0) <= 2e-13
+                else:
+                    guards["twlc_distance: " + ("f < Fc" if x < a_[6] else "f == Fc" if x == a_[6] else "f > Fc")] += 1
+        if c["op"] == "shift" and r["model"] and r["model"][0].startswith("["):
+            shift["cases"] += 1
+            shift["forces"] += len(c["xs"])
+            for _, _, br in parse_model_list(r["model"][0]):
+                shift["det>=0 (Cardano)" if br == "C" else "det<0 (trigonometric)"] += 1
+        # where the value a closed-form inverse returned lies, per branch of the cubic (theorems *_selected_root):
+        # the IMPLEMENTATION's value is classified, the branch is the model's
+        probe = None
+        if c["op"] == "chain" and c["expr"][0] == "b" and base_kind(c["expr"]) in CUBIC_KINDS and c.get("valid"):
+            probe = (base_kind(c["expr"]), args_of(c["expr"], c["params"]), c["xs"], r["impl"][0], r["model"][0])
+        if c["op"] == "shift":
+            probe = ("wlc_marko_siggia_distance", [c["args"][0], c["args"][1], c["args"][3]], c["xs"], r["impl"][1], r["model"][1])
+        if probe and probe[3].startswith("[") and probe[4].startswith("["):
+            kind, a, xs_, got, mod = probe[0], probe[1], probe[2], dec_vals(probe[3]), parse_model_list(probe[4])
+            for x, g, (_, _, br) in zip(xs_, got, mod):
+                if kind == "wlc_marko_siggia_distance":
+                    inside = 0.0 < g < a[1]
+                elif kind == "ewlc_odijk_force":
+                    inside = g > 0 and g >= (x / a[1] - 1.0) * a[2]
+                else:
+                    F, d = (g, x) if kind.endswith("force") else (x, g)
+                    inside = 1.0 - d / a[1] + F / a[2] > 0
+                slot = by_ctor.setdefault(kind, {}).setdefault("det>=0 (Cardano)" if br == "C" else "det<0 (trigonometric)", [0, 0])
+                slot[0] += 1
+                slot[1] += bool(inside)
         if c["op"] == "session":
             msess["sessions"] += 1
             msess["queries"] += len(c["steps"])
@@ -2118,6 +2416,12 @@ def extra_coverage(results):
             "cubic is tied only through the public constructors (cases_also_through_the_public_constructor and every "
             "chain / session case of the four closed-form inverses)"),
         "cubic_branch_split_calc_cubic_root": {"det>=0 (Cardano)": cubic_br.get("C", 0), "det<0 (trigonometric)": cubic_br.get("T", 0)},
+        "selected_root_by_constructor_and_branch [values, inside the domain of the published relation]": by_ctor,
+        "calc_cubic_root_small_scope_exhaustive": small_cubic,
+        "guards_and_masks_of_the_explicit_models": guards,
+        "marko_siggia_elastic_shift": shift,
+        "calc_cubic_root_on_arrays": dict(vec, small_scope_mask_patterns=len(vec["small_scope_mask_patterns"]),
+                                          small_scope_mask_patterns_possible=1 + 2 + 4 + 8),
         "cubic_branch_split_inside_models": {"det>=0 (Cardano)": branches.get("C", 0), "det<0 (trigonometric)": branches.get("T", 0)},
         "values_compared_within_model_error_bound": compared,
         "values_dropped_bound_undetermined (det~0 or >1e-2 relative)": dropped,
